@@ -264,3 +264,15 @@ def run(shard):
             del bucket[:]
         if H._counters.get("cases", 0) <= 3:
             H.sample({"id": id_, "routes": [n for n, _ in routes]})
+
+
+def replay_shard(v):
+    c = v.get("case") or {}
+    s = {"interp": v["interp"], "label": "replay", "tier": "quick", "seed": int(__import__("os").environ.get("VERIF_SEED", "0")), "cases": []}
+    if c.get("k") == "families":
+        s.update({"families": True, "shard": 0})
+    elif c.get("k") == "random-values":
+        s.update({"families": True, "shard": int(str(c.get("id", ":0")).rsplit(":", 1)[1])})
+    else:
+        s["cases"] = [dict((k, x) for k, x in c.items() if k != "values")]
+    return s
